@@ -127,6 +127,7 @@ public:
             return "";
         if (const FunctionDecl *P = F->getTemplateInstantiationPattern())
             F = P;
+        F = F->getCanonicalDecl(); // one spelling of the parameter types for declaration, definition and calls
         std::string s = qname(F);
         s += "(";
         bool first = true;
@@ -1146,6 +1147,42 @@ public:
                 J.attribute("tls", true);
             if (V->isThisDeclarationADefinition() != VarDecl::DeclarationOnly)
                 J.attribute("def", true);
+            if (const Expr *I = V->getAnyInitializer()) {
+                const Expr *X = I->IgnoreParenImpCasts();
+                if (const auto *SL = dyn_cast<StringLiteral>(X)) {
+                    if (SL->getCharByteWidth() == 1 && llvm::json::isUTF8(SL->getBytes()))
+                        J.attribute("sv", SL->getBytes());
+                } else if (const auto *IL = dyn_cast<InitListExpr>(X)) {
+                    bool all = IL->getNumInits() > 0;
+                    std::vector<std::string> vals;
+                    for (const Expr *E : IL->inits()) {
+                        const Expr *Y = E->IgnoreParenImpCasts();
+                        // std::array<T,N>{ {a,b} } / { a, b }: look one level down
+                        if (const auto *IL2 = dyn_cast<InitListExpr>(Y)) {
+                            for (const Expr *E2 : IL2->inits())
+                                if (const auto *S2 = dyn_cast<StringLiteral>(E2->IgnoreParenImpCasts()))
+                                    vals.push_back(S2->getBytes().str());
+                                else
+                                    all = false;
+                        } else if (const auto *S1 = dyn_cast<StringLiteral>(Y))
+                            vals.push_back(S1->getBytes().str());
+                        else
+                            all = false;
+                    }
+                    if (all && !vals.empty()) {
+                        J.attributeBegin("svs");
+                        J.arrayBegin();
+                        for (const std::string &v : vals)
+                            J.value(llvm::json::fixUTF8(v));
+                        J.arrayEnd();
+                        J.attributeEnd();
+                    }
+                } else if (!I->isValueDependent() && V->getType()->isIntegralOrEnumerationType()) {
+                    Expr::EvalResult R;
+                    if (I->EvaluateAsInt(R, Ctx))
+                        J.attribute("iv", R.Val.getInt().getExtValue());
+                }
+            }
         });
         *Idx << "\n";
     }
